@@ -45,7 +45,7 @@ const KEYS: &[&str] = &["Title", "UserName", "Password", "URL", "Notes", "otp", 
 const VALS: &[&str] = &["", "a", "b", "secret", "é", " a "];
 
 fn mutate_content(rng: &mut Rng, e: &mut Entry) -> &'static str {
-    match rng.below(12) {
+    match rng.below(13) {
         0 | 1 | 2 => {
             let k = rng.pick(KEYS).to_string();
             let v = rng.pick(VALS).to_string();
@@ -112,6 +112,29 @@ fn mutate_content(rng: &mut Rng, e: &mut Entry) -> &'static str {
             e.override_url = if rng.chance(1, 3) { None } else { Some(rng.pick(VALS).to_string()) };
             e.quality_check = match rng.below(3) { 0 => None, 1 => Some(true), _ => Some(false) };
             "url-quality"
+        }
+        11 => {
+            // the same text under another kind of value (plain, protected, bytes): a change of the entry
+            let keys: Vec<String> = { let mut k: Vec<String> = e.fields.keys().cloned().collect(); k.sort(); k };
+            if keys.is_empty() {
+                e.fields.insert("Title".into(), Value::Bytes(b"a".to_vec()));
+                return "retype-field";
+            }
+            let k = rng.pick(&keys).clone();
+            let bytes: Vec<u8> = match &e.fields[&k] {
+                Value::Unprotected(s) => s.clone().into_bytes(),
+                Value::Protected(p) => p.unsecure().to_vec(),
+                Value::Bytes(b) => b.clone(),
+            };
+            let was = match &e.fields[&k] { Value::Unprotected(_) => 0, Value::Protected(_) => 1, Value::Bytes(_) => 2 };
+            let to = (was + 1 + rng.below(2)) % 3;
+            let v = match (to, String::from_utf8(bytes.clone())) {
+                (0, Ok(s)) => Value::Unprotected(s),
+                (1, _) => Value::Protected(secstr::SecStr::new(bytes)),
+                _ => Value::Bytes(bytes),
+            };
+            e.fields.insert(k, v);
+            "retype-field"
         }
         _ => {
             // an edit that restores a previous value (no net change is likely)
